@@ -664,6 +664,10 @@ class Interp:
             return self.world.module_attr(obj.name, name, self)
         if type(obj).__name__ == 'module':
             return getattr(obj, name)
+        if isinstance(obj, SFunc) and name == 'name':
+            return obj.name
+        if isinstance(obj, S.SIter) and name in ('seq', 'pos'):
+            return obj.seq if name == 'seq' else SInt(obj.pos)
         r = self.world.attr_model(obj, name, self)
         if r is not NotImplemented:
             return r
